@@ -114,6 +114,9 @@ def component(body, op, pm, pflows):
     return "fmt(%s)" % ",".join(srcs) if srcs else "?"
 
 
+_FA = [None]
+
+
 def join_chains(body):
     """[(bb, chain string)] for the maximal Path::join sites of a body."""
     pm = params(body)
@@ -140,7 +143,7 @@ def join_chains(body):
             if n == "std::path::Path::new":
                 ww = who(body, ds[0][2]["a"][0])
                 return "data_dir" if ww and ww[1][-1:] == (".data_dir",) else "Path::new(?)"
-            if n.startswith(MOD) and last(n) in HELPERS:
+            if n.startswith(MOD) and (last(n) in HELPERS or str((_FA[0].fns.get(n) or {}).get("output", "")).endswith("PathBuf")):
                 return "%s(%s)" % (last(n), component(body, ds[0][2]["a"][0], pm, pflows))
         return "?"
     out = []
@@ -151,10 +154,45 @@ def join_chains(body):
     return out, len(joins)
 
 
+OWNER_NAMES = ("owner", "new_owner", "username", "user")
+DB_NAMES = ("db", "new_db")
+SHAPES = {      # canonical expanded chain -> what it is
+    "data_dir/O": "the owner's directory",
+    "data_dir/O/D": "the database file",
+    "data_dir/O/'backups'": "the owner's backup directory",
+    "data_dir/O/'audit'": "the owner's audit directory",
+    "data_dir/O/'backups'/fmt(D)": "backup / backup-audit file (<db>.bak, <db>.log)",
+    "data_dir/O/'backups'/D": "backup directory entry addressed by the plain name (rollback)",
+    "data_dir/O/'audit'/fmt(D)": "audit file (<db>.log)",
+}
+REQUIRED_SHAPES = ("data_dir/O/D", "data_dir/O/'backups'", "data_dir/O/'audit'", "data_dir/O/'backups'/fmt(D)", "data_dir/O/'audit'/fmt(D)")
+
+
+def _canon(chain):
+    parts = chain.split("/")
+    out = []
+    for k, p_ in enumerate(parts):
+        if p_ in OWNER_NAMES and k == 1:
+            out.append("O")
+        elif p_ in DB_NAMES:
+            out.append("D")
+        elif p_.startswith("fmt(") and p_[4:-1] in DB_NAMES:
+            out.append("fmt(D)")
+        else:
+            out.append(p_)
+    return "/".join(out)
+
+
 def r26a(ctx):
+    """Every path the database pool builds has one of the canonical shapes under config.data_dir: the owner is joined
+    first, then the database name or one of the two reserved directories.  Chains are read off the Path::join calls and
+    expanded through the module's own path helpers (whatever they are called), so the verdict does not depend on how the
+    joins are distributed over helper functions."""
     fa = ctx.facts
+    _FA[0] = fa
     total = 0
-    seen = {}
+    per_fn = {}
+    bodies = {}
     for b in sorted(fa.bodies.values(), key=lambda x: x.path):
         if b.crate != "agdb_server" or not fn_of(b).startswith(MOD):
             continue
@@ -163,28 +201,61 @@ def r26a(ctx):
             continue
         total += n
         f = fn_of(b)[len(MOD):]
-        seen.setdefault(f, []).extend(c for i, c in chains)
-        if f not in CHAINS:
-            ctx.ob("R26a", "who:%s" % f, False,
-                   "`%s` builds a path with Path::join but is neither a path helper nor one of the frozen inline sites "
-                   "(chains: %s)" % (fn_of(b), [c for i, c in chains]), b.loc(chains[0][0]) if chains else b.where)
-    for f, want in sorted(CHAINS.items()):
-        got = sorted(seen.get(f, []))
-        if f not in seen:
-            ctx.ob("R26a", "chain:%s" % f, False, "path-building function `%s%s` not found / no longer joins paths" % (MOD, f), "",
-                   key="%s|R26a|missing-anchor|%s" % (ctx.pid, f))
-            continue
-        b = fa.body(MOD + f) or fa.body(MOD + f + "::{closure#0}")
-        ctx.ob("R26a", "chain:%s" % f, got == sorted(want),
-               "joins %s" % ", ".join(got) if got == sorted(want) else
-               "`%s` joins %s, frozen %s (every chain must start at config.data_dir and join the owner before the "
-               "database name)" % (f, got, sorted(want)), b.where if b else "")
-    for f, cs in sorted(seen.items()):
+        per_fn.setdefault(f, []).extend(c for i, c in chains)
+        bodies.setdefault(f, (b, chains))
+    # summaries of path-returning helpers: name -> (chain, first parameter name)
+    summ = {}
+    for f, cs in per_fn.items():
+        b = bodies[f][0]
+        out_ty = str((fa.fns.get(MOD + f) or {}).get("output", ""))
+        if out_ty.endswith("PathBuf") and len(cs) == 1 and "::" not in f:
+            summ[f] = (cs[0], b.local_name(1))
+
+    def expand(c, depth=0):
+        import re as _re
+        m = _re.match(r"^([a-z_][a-z0-9_]*)\(([^)]*)\)(.*)$", c)
+        if m and m.group(1) in summ and depth < 5:
+            inner, pname = summ[m.group(1)]
+            inner = expand(inner, depth + 1)
+            if pname:
+                inner = "/".join(m.group(2) if x == pname else x for x in inner.split("/"))
+            return inner + m.group(3)
+        return c
+    seen_shapes = {}
+    for f, cs in sorted(per_fn.items()):
+        b, chains = bodies[f]
         for c in cs:
-            ok = c.startswith(("data_dir/", "db_backup_dir(", "db_audit_dir(")) and "?" not in c
-            if not ok:
-                ctx.ob("R26a", "base:%s" % f, False, "chain `%s` in `%s` does not start at config.data_dir" % (c, f), "")
-    ctx.floor("R26a", "Path::join sites in db_pool", total, JOIN_FLOOR)
+            e = expand(c)
+            k = _canon(e)
+            ok = k in SHAPES
+            seen_shapes.setdefault(k, []).append(f)
+            ctx.ob("R26a", "chain:%s:%s" % (f, c), ok,
+                   "%s = %s" % (e, SHAPES.get(k, "")) if ok else
+                   "`%s` builds the path `%s` (expanded: %s), which is none of the canonical shapes under config.data_dir "
+                   "(owner first, then the database name or 'backups' / 'audit'): %s" % (f, c, e, sorted(SHAPES)),
+                   b.loc(chains[0][0]) if chains else b.where)
+    for k in REQUIRED_SHAPES:
+        ctx.ob("R26a", "shape-present:%s" % k, k in seen_shapes,
+               "built by %s" % sorted(set(seen_shapes.get(k, []))) if k in seen_shapes else
+               "no function of db_pool builds %s (%s) any more: the path analysis lost its anchors" % (k, SHAPES[k]), "",
+               key="%s|R26a|missing-anchor|%s" % (ctx.pid, k))
+    tmp_users = sorted(set(seen_shapes.get("data_dir/O/'backups'/D", [])))
+    ctx.ob("R26a", "plain-name-in-backups", len(tmp_users) <= 1,
+           "only %s addresses the backup directory by the plain database name (rollback temporary)" % tmp_users if len(tmp_users) <= 1 else
+           "%s build `backups/<db>` without a suffix: the name collides with the rollback temporary of the same database" % tmp_users, "")
+    # a path is final once joined: replacing its extension / file name afterwards maps different database names to one
+    # file (`shop.eu` and `shop.us` -> `shop.bak`)
+    edits = []
+    for b in fa.bodies.values():
+        if b.crate == "agdb_server" and fn_of(b).startswith(MOD):
+            for i, t in cfg.calls(b):
+                if last(cfg.callee(t) or "") in ("with_extension", "set_extension", "with_file_name", "set_file_name", "pop") and \
+                        "path::Path" in (cfg.callee(t) or ""):
+                    edits.append("%s@%s" % (last(cfg.callee(t)), b.loc(i)))
+    ctx.ob("R26a", "no-path-surgery", not edits,
+           "no with_extension / set_extension / with_file_name / set_file_name / pop on a database path in db_pool" if not edits else
+           "db_pool edits a joined path (%s): names that differ only after the last dot then share one file" % edits, "")
+    ctx.floor("R26a", "Path::join sites in db_pool", total, 6)
     other = sorted({fn_of(b) for b in fa.bodies.values() if b.crate == "agdb_server" and not fn_of(b).startswith(MOD) and
                     any(common.norm(cfg.callee(t) or "") == "std::path::Path::join" for i, t in cfg.calls(b))})
     if other:
